@@ -24,6 +24,13 @@ func properties() []*propDef {
 			Assumptions: []string{"FHIRPath N1 §6.5 truth tables as frozen in rules_c06.go"},
 		},
 		{
+			ID: "C07", Title: "Empty collections propagate through operators and functions",
+			Rules: []ruleFn{ruleEMP1, ruleEMP2},
+			Explanation: "EMP1: for every name in the base and experimental tables that is not a documented aggregate and every admitted arity n, conditional constant propagation under len(input)=0 ∧ len(args)=n shows that every executable return is (Empty, nil) or an error that depends on an argument, and that no crash site is executable. EMP2: the same for every operator node (equality, comparison, arithmetic, is, as, polarity, indexer) with each operand position pinned to the empty collection, and `&` yields the documented string. Exhaustive over the tables and operator nodes as they are in the working tree.",
+			NotDecided: []string{"how the empty collection was produced (literal {}, absent path, empty variable): the nodes only see the collection", "the indexer's input-empty case is discharged by PAN3's bounds guard (C01)"},
+			Assumptions: []string{"documented aggregate list of the property statement"},
+		},
+		{
 			ID: "C16", Title: "Every built-in function is callable under its specification name and arity",
 			Rules: []ruleFn{ruleTAB1, ruleTAB2, ruleTAB3, ruleTAB4},
 			Explanation: "Exhaustive over both function tables as they stand in the working tree: TAB1 compares every key with the implementation bound to it (name agreement) and every exported implementation with its registration; TAB2 decides, for every entry and n=0..5, by conditional constant propagation under len(args)=n whether the implementation itself rejects the arity, and compares with the table bounds and the frozen FHIRPath N1 arities; TAB3 shows the placeholder errors on all paths; TAB4 shows VisitFunction constructs the call node iff the name was found and Min<=n<=Max.",
